@@ -21,7 +21,7 @@ def run(ctx):
 
 
 META = {
-    "text": "TLC checks Recovery.tla (packet log, sessions, window, clean-up passes, restore verdict and missed list, reconnection on both sides of the window, two clients on one log): no gap, no duplicate, emission order, fresh sessions marked, identity kept, no entry dropped before it expired; the repository's former clean-up rule and the two-step restore/attach of namespace.add must violate. Hook records of the real session-aware adapter (seeded histories, 9 ms cleaner) are validated against the specification's log and session table with explicit time tolerances; full client sessions (raw protocol client disconnecting at every point k, reconnecting inside/outside the window, unknown offset/pid; Go client) are judged by the specification's end-to-end predicate.",
+    "text": "TLC checks Recovery.tla (packet log, sessions, window, clean-up passes, restore verdict and missed list, reconnection on both sides of the window, two clients on one log): no gap, no duplicate, emission order, fresh sessions marked, identity kept, no entry dropped before it expired; the repository's former clean-up rule and the two-step restore/attach of namespace.add must violate. Hook records of the real session-aware adapter (seeded histories, 9 ms cleaner) are validated against the specification's log and session table with explicit time tolerances; full client sessions (raw protocol client disconnecting at every point k, reconnecting inside/outside the window, unknown offset/pid; Go client) are judged by the specification's end-to-end predicate. Every third adapter history runs without a cleaner (an expired session is still stored when it is asked for, as with the public one-minute cleaner); a watchdog turns a library goroutine that has waited a minute for a mutex into a violation instead of a driver time-out.",
     "note": "Trusted: hook times under a.mu; raw protocol client of the harness (long-polling); tolerance intervals.",
     "technique": "TLA+/TLC model checking + trace validation of the real adapter with time tolerances + end-to-end sessions judged in TLA+",
     "design_ref": "DESIGN.md 4.5, 5 (C08)",
